@@ -12,6 +12,7 @@ import (
 	"math/rand/v2"
 	"net/url"
 	"os"
+	"path/filepath"
 	"runtime/debug"
 	"sort"
 	"strings"
@@ -190,6 +191,10 @@ func vfRunPlan(t *testing.T, plan *vfPlan, keepLog bool) (res *vfResult) {
 			prof.Post(t, plan, res)
 		}
 		res.HistHash = vfHash(strings.Join(res.Log, "\n"))
+		if d := os.Getenv("VF_DUMP_LOGS"); d != "" {
+			// debugging aid of the determinism self-test: the event log of every run, one file per process and run
+			os.WriteFile(filepath.Join(d, fmt.Sprintf("%s-%d-%s-%d.log", plan.Prop, res.Seed, res.Variant, os.Getpid())), []byte(strings.Join(res.Log, "\n")), 0o644)
+		}
 		sort.Strings(res.Cells)
 		if prof != nil && prof.Nontrivial != nil {
 			res.Nontrivial = prof.Nontrivial(res)
